@@ -14,7 +14,9 @@ Case line (kind `a2`), fields separated by `|`:
           class and overridden *by value* D2 in the subclass the object belongs to; `t`: the same TraitType
           instance is bound to an earlier name first; `i`: everything is declared in a base class and the object is an
           instance of a subclass that inherits it; `m`: ONE CTrait object is bound to two or three names of the class
-          — the "reusable trait definition" idiom —, see M) · TT real trait type used (table-driven TraitType / Int /
+          — the "reusable trait definition" idiom —, see M; `a`: the class has a second, unrelated trait
+          `w = Any(comparison_mode=X)` whose comparison mode X differs from C, assigned by `sib w v`: the per-class
+          `_anytrait_changed` wrapper serves both names) · TT real trait type used (table-driven TraitType / Int /
           Str / expr = traits.api.Expression, which stores the assigned string and validates by compiling it: pool id
           `code_k` stands for the fresh code object / cast = `Trait(<int default>)`, a CTrait made by the Trait()
           factory)
@@ -114,6 +116,8 @@ def mk_case(T, names, H, RL, RO, S, ops):
         tf += " R=" + T["R"]
     if T["Z"] == "m":
         tf += " M=" + T["M"]
+    if T["Z"] == "a":
+        tf += " X=" + T["X"]
     hf = "H=%s RL=%d RO=%d S=%s" % (",".join(H) or "o", RL, RO, ",".join(S) or "-")
     if T.get("DH"):
         hf += " DH=1"
@@ -189,6 +193,13 @@ def corpus():
     out.append(mk_case(base_T(C="2"), names, ["o", "x", "o"], 0, 0, [],
                        ["ra 0 0", "ra 1 0", "ra 2 0", "set 3", "set 4", "del"]))
     out.append(mk_case(base_T(K="E"), names, ["x", "x", "o"], 0, 0, [], ["ra 2 0", "ra 1 1", "ra 0 1", "set 3", "set 3"]))
+    # shape a: an unrelated trait of another comparison mode is notified through _anytrait_changed first
+    out.append(mk_case(base_T(C="0", Z="a", X="2"), names, ["o", "o", "o"], 0, 0, ["a0", "c1"],
+                       ["ro 2", "sib w 3", "set 3", "set 4", "set 4", "set 5"]))
+    out.append(mk_case(base_T(C="2", Z="a", X="0"), names, ["o", "o"], 0, 0, ["a0"],
+                       ["rd 1 0", "sib w 3", "sib w 3", "set 3", "set 4", "set 5"]))
+    out.append(mk_case(base_T(K="E", Z="a", X="2"), names, ["o", "o"], 0, 0, ["a0", "f1"],
+                       ["sib w 3", "set 3", "set 3", "set 4"]))
     # post_setattr raises during the first read: the default stays stored, the next read returns it
     out.append(mk_case(base_T(C="2", P="k0", D="3"), names, ["o", "o"], 0, 0, [], ["rd 0 0", "ro 1", "get", "get", "set 4", "get"]))
     out.append(mk_case(base_T(C="0", P="k1", D="2"), names, ["o"], 0, 0, [], ["ra 0 0", "set 3", "del", "get", "get"]))
@@ -457,6 +468,34 @@ def dispatch_case(rng):
     return mk_case(T, names, H, 0, 0, [], ops)
 
 
+def aux_case(rng):
+    """Class shape Z=a: besides x the class has an unrelated trait `w = Any(comparison_mode=X)`, X different from the
+    mode of x; `_anytrait_changed` (one wrapper per class) is notified about w FIRST, then x is assigned equal-not-
+    identical, identical and different values.  The anytrait handler's calls for x are the real changes of x under
+    x's own comparison mode, as for the named static, on_trait_change and observe handlers."""
+    names = ["Uninitialized", "Undefined", "None", "int1", "float1", "int7", "str_c", "big_a", "big_b"]
+    K = "E" if rng.random() < 0.2 else "T"
+    C = rng.choice("012")
+    X = rng.choice([m for m in "012" if m != C or K == "E"])
+    T = base_T(K=K, C=C, Z="a", X=X)
+    S = ["a0"] + ([("f1" if K == "E" else "c1")] if rng.random() < 0.6 else [])
+    nh = len(S) + rng.randint(0, 2)
+    roles = ["static"] * len(S) + [rng.choice(["dyn", "obs"]) for _ in range(nh - len(S))]
+    ops = [reg_op(rng, roles[h], h) for h in range(len(S), nh)]
+    ops.append("sib w %d" % rng.choice([3, 5, 7]))
+    if rng.random() < 0.5:
+        ops.append("sib w %d" % rng.choice([3, 4, 7, 8]))
+    for _ in range(rng.randint(3, 7)):
+        r = rng.random()
+        if r < 0.75:
+            ops.append("set %d" % rng.choice([3, 4, 3, 4, 5, 7, 8]))
+        elif r < 0.9:
+            ops.append("sib w %d" % rng.choice([3, 4, 5]))
+        else:
+            ops.append("del")
+    return mk_case(T, names, ["o"] * nh, 0, 0, S, ops)
+
+
 def first_read_case(rng):
     """The first read of a never-assigned value during which `post_setattr` raises (at its first or second call):
     the default has been computed and stored by then and stays stored (getattr_trait's error exit only drops its own
@@ -500,6 +539,8 @@ def generate(rng, tier):
             yield dispatch_case(rng)
         if i % 40 == 0:
             yield first_read_case(rng)
+        if i % 20 == 0:
+            yield aux_case(rng)
         yield random_case(rng)
 
 
@@ -772,6 +813,12 @@ def run_impl(case):
         cls = type("Mixer", (HasTraits,), ns2)
         if other_cls == "a":
             holder["other"] = other()
+    elif T["Z"] == "a":
+        from traits.api import Any as _Any
+        ns["x"] = trait
+        ns["w"] = _Any(comparison_mode=ComparisonMode(int(T["X"])))
+        cls = type("Aux", (HasTraits,), ns)
+        tags.add("aux-trait-mode:%s-vs-%s" % (T["X"], T["C"] if kind == "T" else "event"))
     else:
         ns["x"] = trait
         cls = type("Plain", (HasTraits,), ns)
@@ -895,6 +942,7 @@ def run_impl(case):
                         obj.trait_setq(x=pool.objs[int(op[1])])
                     elif k == "sib":
                         sib_before = obj.__dict__.get(op[1], A)
+                        holder["sib_seen"] = True
                         setattr(obj, op[1], pool.objs[int(op[2])])
                     elif k == "rd":
                         h = int(op[1])
@@ -1065,6 +1113,11 @@ def run_impl(case):
                     sig = "spurious-call:%s:%s:%s%s%s" % (hk, mode_name, k, ":same-object" if same else "", osfx)
                 else:
                     sig = "untruthful-old-new:%s:%s:%s%s" % (hk, mode_name, k, osfx)
+                if (T["Z"] == "a" and role == "static" and ("a%d" % h) in S and holder.get("sib_seen")
+                        and not sig.startswith(("untruthful", "identity-prefilter"))):
+                    # the per-class _anytrait_changed wrapper serves every trait of the class: what counts as a change
+                    # of x is decided by x's comparison mode, whatever other trait was notified through it before
+                    sig = "anytrait-wrapper-mode-of-other-trait:%s" % mode_name
                 hits.append(_hit(sig, "handler %d (%s) saw %s, the property requires %s" % (
                     h, role, [(pool.show(o), pool.show(n)) for o, n in got],
                     [(pool.show(o), pool.show(n)) for o, n in exp]), step=idx, op=" ".join(op)))
